@@ -8,6 +8,7 @@ import os
 from engine.astutil import U, calls, kwargs, single_defs, inline, walk_own, call_name, attr_tail, returns, enclosing_map, names_in, arg
 from engine.norm import Norm, Poly, parse_expr, renamed
 from engine.repo import AnalysisError
+from . import common
 from . import C09
 
 EXPLANATION = (
@@ -32,8 +33,9 @@ RULES = {
     "R6": "triples: choice(C, min(C, max_combos), replace=False), C = comb(n, 3, exact=True); unranked with (n, 3)",
     "R7": "rng threaded from wrappers/scorer to the kernel",
     "R8": "the stacking helpers the scorer calls (predict_mean_all, predict_variance_all, ..) give one row per posterior sample in holder order from the like-named predictor",
+    "R9": "the derived screen attributes this property's code relies on (size) have their documented definitions in ScreenBase and every override",
 }
-MIN = {"R1": 1, "R2": 7, "R3": 2, "R4": 2, "R5": 3, "R6": 3, "R7": 3, "R8": 5}
+MIN = {"R1": 1, "R2": 7, "R3": 2, "R4": 2, "R5": 3, "R6": 3, "R7": 3, "R8": 5, "R9": 1}
 TRUSTED = ["distance matrix is symmetric (C07.R3)", "scipy logsumexp(axis=1) reduces the triple axis only", "numpy broadcasting"]
 TECHNIQUE = "polynomial normal form with permutation (S3) symmetry lint; def-use checks of the padding protocol; axis-role lint"
 LEVEL_TEXT = ("Invariance under relabelling of the posterior samples, independence from co-scored plates (axis isolation + "
@@ -629,7 +631,11 @@ def r8(ctx):
     ctx.borrow(C09.r6, "R8")
 
 
-RULE_FUNCS = [r1, r2, r3, r4, r5, r6, r7, r8]
+def r_derived(ctx):
+    common.derived_attributes(ctx, "R9", ['size'])
+
+
+RULE_FUNCS = [r1, r2, r3, r4, r5, r6, r7, r8, r_derived]
 
 
 def run(ctx):
